@@ -11,6 +11,8 @@ package sched
 
 import (
 	"fmt"
+	"runtime"
+	"runtime/debug"
 	"sort"
 	"sync"
 	"testing/synctest"
@@ -50,6 +52,14 @@ func Install(c *core.Ctx, sites []string) *Sched {
 			s.enabled[x] = true
 		}
 	}
+	// Keep the garbage collector out of scheduled runs: a collection stops the world and requeues the
+	// running goroutine behind the others, so the arrival order at park sites (the tie-breaker of the
+	// canonical order) would depend on heap pacing. Collections happen between runs instead.
+	if c.Run%16 == 0 {
+		runtime.GC()
+	}
+	oldGC := debug.SetGCPercent(-1)
+	c.Defer(func() { debug.SetGCPercent(oldGC) })
 	ice.VerifSetYield(s.yield)
 	c.Defer(func() {
 		// never unwind with goroutines still parked: release everything, then remove the hook
